@@ -142,6 +142,8 @@ class Runner:
             call = self.solver.restart
         # an explicit far stop time overrides the default "stop at the last save time", so that sibling probes run the same N iterations
         stop = {"maxit": o["maxit"], "tottime": 1e30}
+        if o.get("bare_stop"):
+            stop = {"maxit": o["maxit"]}
         direc = {"dtlocal": True} if o.get("dtlocal") else {}
         ts_given = list(ts)
         args_before = (dict(stop), list(ts_given), dict(direc), {k: {a: b for a, b in v.items() if a != "output"} for k, v in mons.items()})
@@ -204,6 +206,7 @@ DISTURB = [
     {"op": "restart", "maxit": 1, "cfl": 0.15},
     {"op": "solve", "f": "a", "save": "early", "maxit": 2, "dtlocal": True},   # a directive given to one call only
     {"op": "other-solver"},                                                    # other integrator objects use the same discretisation in between
+    {"op": "solve", "f": "a", "save": "early+late", "maxit": 3, "bare_stop": True},  # stop = {"maxit": 3} only: the end time is left to the default (last save time)
 ]
 PROBE_SAVES = ["none", "early", "early2", "late", "early+late", "all", "start+late"]
 PROBE_MONS = ["none", "f1", "mix"]
@@ -358,7 +361,7 @@ def explore(iname, sysname, ctor_mon, depth, res=None):
     # deep traces (not exhaustive at that depth, a supplement to the tree above): three fixed orders of ALL disturbing letters, cut after 5, 9 and
     # 12 operations, then a probe - a defect that needs a fourth or a tenth call on the same object to show
     order = list(range(len(DISTURB)))
-    paths = [order, order[::-1], [0, 6, 2, 7, 8, 9, 3, 6, 10, 7, 11, 6]]
+    paths = [order, order[::-1], [0, 6, 2, 7, 8, 9, 3, 6, 10, 7, 11, 6, 12]]
     for path in paths:
         if DISTURB[path[0]]["op"] == "restart":
             path = [0] + path
